@@ -134,6 +134,15 @@ async function drain(trace) {
 }
 
 async function runVariant(v) {
+  // syntax-only kinds: the text is compiled, never executed
+  if (v.kind === 'syntax-script') {
+    try { new vm.Script(v.code, { filename: 'case.js' }); return { name: v.name, trace: [], outcome: 'ok' }; }
+    catch (e) { return { name: v.name, trace: [], outcome: 'syntax:' + String(e && e.message) }; }
+  }
+  if (v.kind === 'syntax-module') {
+    try { new vm.SourceTextModule(v.code, { identifier: 'case.mjs' }); return { name: v.name, trace: [], outcome: 'ok' }; }
+    catch (e) { return { name: v.name, trace: [], outcome: 'syntax:' + String(e && e.message) }; }
+  }
   const trace = [];
   const { ctx, sandbox, ser } = makeContext(v.kind, trace);
   let outcome = 'ok';
